@@ -407,11 +407,47 @@ def walk_frees_visited(ctx, rule='C10.walk-frees-visited'):
     return res
 
 
+def scan_whole_free_set(ctx, rule='C10.scan-whole-free-set'):
+    """the first-fit search of the allocation role looks at the whole free set: a bounded scan (`take(n)`, `skip`, `step_by`, `nth`, a `range(..)` of the set) cannot see a
+    run that lies behind the bound, so multi-page requests extend the file although a fitting run is free"""
+    res = []
+    F = ctx.facts
+    try:
+        (alloc,) = ctx.need('alloc-role')
+    except AnchorError as e:
+        return [unresolved(rule, str(e))]
+    fn = ctx.A.xf(alloc)
+    du = ctx.du(fn)
+    CUT = ('take', 'skip', 'step_by', 'nth', 'take_while', 'skip_while', 'range', 'split_off')
+    n = 0
+    for bb in sorted(fn.reachable_blocks()):
+        t = fn.term(bb)
+        c = callee_of(t) if t['k'] == 'call' else None
+        if not c or not t['args']:
+            continue
+        nm = last_seg(strip_generics(c['path']))
+        _, atoms = du.slice_operand(t['args'][0])
+        if not has_field(atoms, 'Freelist', 'free_pages'):
+            continue
+        n += 1
+        if nm in CUT and c['path'] not in F.by_path:
+            res.append(bad(rule, '%s | scan of the free set bounded by %s' % (alloc.qual, nm),
+                           'the allocation role narrows its walk over the free set with `%s` at %s: a run of free pages behind that bound is never found, and every request that '
+                           'does not fit in front of it extends the file' % (nm, fn.loc(bb)), where=fn.loc(bb)))
+    f = floor(rule, 'uses of the free set in the allocation role', n, 2)
+    if f:
+        res.append(f)
+    if not any(not r.ok for r in res):
+        res.append(ok(rule, 'the allocation role walks the whole free set (%d uses, none bounded)' % n, sites=n))
+    return res
+
+
 def run(ctx, tier):
     ob = commit.obligations(ctx)
     results = []
     results += release_on_begin(ctx)
     results += reuse_before_extend(ctx)
+    results += scan_whole_free_set(ctx)
     results += persist_both(ctx)
     results += c02.reload_rule(ctx, rule='C10.reload')
     results += [r for r in ob['O5']]
@@ -437,6 +473,6 @@ def run(ctx, tier):
             'Decides the links of the reuse chain, each of which, when cut, makes the file grow without bound for every overwrite workload: (release-on-begin) every successful '
             'writer begin releases pending pages into the free list it will allocate from; (reuse-before-extend) the high-water mark advances only when the free set returned None; '
             '(persist-both) the persisted list covers free and pending pages; (reload) the persisted list is reloaded in full through the chosen header on open; (shared-freelist) the shared free list changes only at the end of a commit and in open, so an abandoned writer cannot lose it; (publish) the commit '
-            'publishes its free list on every exit after the header write; (deregister/register) readers deregister on drop under the id they registered; (persist-both, second clause) the persisted list walks the whole pending map; (walk-frees-visited) the deletion walk frees only the page it is visiting; (writer-snapshot) the writer copies the free list after it owns the lock; (debug-pure) bodies of debug assertions change no state. NOT decided: the plateau '
+            'publishes its free list on every exit after the header write; (deregister/register) readers deregister on drop under the id they registered; (persist-both, second clause) the persisted list walks the whole pending map; (walk-frees-visited) the deletion walk frees only the page it is visiting; (writer-snapshot) the writer copies the free list after it owns the lock; (debug-pure) bodies of debug assertions change no state. (scan-whole-free-set) the first-fit walk over the free set is unbounded. NOT decided: the plateau '
             'itself (first-fit arithmetic, fragmentation).'),
         assumptions=['bounded live data', 'readers are eventually dropped'])
